@@ -72,4 +72,68 @@ PROPS = {
              "safety and availability judged separately, only when every delivered fragment is pristine or invalid under the reference",
              (16000, 40), (400000, 600), [ISAL_ASSUME],
              expect_probes=["c20.judged"]),
+    "C13": P("fault_enumeration",
+             "seeded histories: every third run walks a box of configurations around the accepted region (9 backend ids + invalid ids, k,m in -1..33 biased to the edges, hd 0..7, w in {0,8,16,32,7}), each accepted instance is driven through a full "
+             "size-query/encode/decode/reconstruct/destroy cycle; the other runs issue malformed calls inside a live history, the first 14 of each run enumerating by run index the finite grid "
+             "(15 entry points x {live,dead,never-issued descriptor} x NULL/boundary masks x 16 variants = 5232 calls), valid traffic interleaved",
+             (9000, 40), (200000, 600), [ISAL_ASSUME],
+             expect_probes=["badcall.refused.invalid-argument", "badcall.refused.dead-descriptor", "badcall.refused.unknown-descriptor", "create.refused", "cycle.done.liberasurecode_rs_vand", "cycle.done.flat_xor_hd", "cycle.done.null"]),
+    "C14": P("exploration",
+             "seeded histories over 6 slots (length 10-60, thorough to 200): creates of every available backend incl. null, failed creates (unsupported shape, unavailable backend, injected init failure), destroys in any order, "
+             "destroys/uses of dead and never-issued descriptors against every entry point, data-path operations and canaries on live instances, descriptor counter preset just below INT_MAX with live descriptors above the wrap point; "
+             "registry set model + canary digests computed in fresh-process state",
+             (8000, 40), (200000, 600), [ISAL_ASSUME, "next_backend_desc is bound weakly; if a refactor hides it the wrap scenario is reported as unreached"],
+             expect_probes=["canary.match", "badcall.refused.dead-descriptor"],
+             extra_flavours={"quick": {"plain": (1500, 15)}, "thorough": {"plain": (20000, 120)}}),
+    "C15": P("exploration",
+             "seeded histories: three instances, 8-40 mixed operations (thorough to 120) with every input buffer read-only between two guard pages (right-aligned or ASan-poisoned slack), canaries (fixed configuration+data re-encoded and compared with the digest taken in fresh-process state) after failed calls, backend failures, instance churn and environment flips",
+             (8000, 40), (200000, 600), [ISAL_ASSUME],
+             expect_probes=["canary.match"]),
+    "C16": P("exploration",
+             "seeded histories of 20-80 operations (thorough to 300) over four slots mixing valid calls with their cleanups, arbitrary (insufficient, beyond-tolerance, damaged) fragment sets, malformed calls, unsupported shapes, backend and dependency failures; "
+             "ownership accounting of every block allocated from library call sites: zero net after each call pair / failed call, zero at quiescence after destroying all instances; ASan for double free and use-after-free",
+             (5000, 45), (120000, 600), [ISAL_ASSUME, "allocation failure is not injected (no property quantifies over it)"],
+             expect_probes=[]),
+    "C17": P("fault_enumeration",
+             "even run indexes enumerate a scripted workload (create, 3 encode, 4 decode with a data fragment lost, 3 reconstruct, 3 fragments_needed, destroy; 14 fail positions x 2 modes [fail instead of / after the real work] x 5 backends = 140 cases), "
+             "the failed call is then repeated with the fault off and must succeed; odd run indexes attach failures at random; ISA-L inversion failures come from the stub; a sibling instance must stay unaffected",
+             (6000, 30), (150000, 400), [ISAL_ASSUME],
+             expect_probes=[]),
+}
+
+NOT_APPLICABLE = [
+    {"property_id": "C04", "reason": "pure function of (k, m, data): a constant generator matrix and a linear map, with no fault, schedule, history or environment to simulate; deciding it is evaluation of a formula, not simulation"},
+    {"property_id": "C07", "reason": "pure function (configuration, data) -> bytes; deciding it is a differential comparison with an independent serializer, a different technique; the golden header layout is used here only as an oracle for C09-C12/C20"},
+    {"property_id": "C08", "reason": "pure arithmetic of (k, w, length) with nothing to inject or schedule; its one history-dependent clause (unknown descriptor => negative) is exercised under C13/C14"},
+]
+
+TECHNIQUE = {p: "deterministic simulation with fault injection (seeded plans over a simulated stripe store, reference-model oracles)" for p in PROPS}
+TECHNIQUE.update({
+    "C05": "deterministic simulation: enumeration of all tolerated erasure sets as device-loss faults, golden-equation oracle",
+    "C09": "deterministic simulation: enumerated and seeded corruption of stored headers, reference acceptance predicate",
+    "C13": "deterministic simulation: enumerated malformed calls inside seeded live histories, allocator accounting",
+    "C14": "deterministic simulation: seeded create/use/destroy histories against a registry set model, fresh-process canaries",
+    "C16": "deterministic simulation: seeded fault-laden API histories with link-time allocator ownership accounting under ASan",
+    "C17": "deterministic simulation: backend-operation failure injected at every call position of a scripted workload",
+    "C18": "deterministic simulation: real threads under a seeded scheduler at lock/hook yield points, vector-clock race detection, sequential-equivalence oracle",
+})
+
+LEVEL_TEXT = {
+    "C01": "Seeded exploration of (configuration, object, tolerated loss set, delivery permutation/duplication/alignment): every sampled decode must return the original bytes. Sampling, not proof; covers every shape family and every XOR table in the quick tier.",
+    "C02": "Seeded exploration of arbitrary sub-multisets of pristine stripes incl. the band beyond tolerance; oracle is truth-or-error plus sanitizers and guard pages. Thorough sweeps all subsets of small codes.",
+    "C03": "Seeded exploration of reconstruct for lost, delivered and out-of-range destinations; byte-for-byte comparison with the fragment encode produced.",
+    "C05": "Fault enumeration: the finite set of 24191 erasure sets below hd over the 38 tables is walked by run index (complete in the thorough tier, stratified in quick) on both kernel flavours; golden equations after every encode; shape whitelist box swept.",
+    "C06": "Seeded exploration of (rebuild, unreachable) queries within and beyond tolerance; answer judged by range/disjointness/GF(2) span/exactly-k and confirmed behaviourally.",
+    "C09": "Fault enumeration over header corruption: all 640 single-bit flips swept plus seeded overwrites, bursts, torn prefixes, version/magic/endianness rewrites; verdict compared with an independent acceptance predicate through all three consuming APIs.",
+    "C10": "Seeded exploration of payload corruption and of the legacy-CRC switch flipping between operations; stored CRCs and mismatch verdicts compared with bitwise CRC models.",
+    "C11": "Seeded exploration comparing every scrubbed fragment with its simulator-built opposite-endian twin, with and without corruption. The fault dimension is thin (one deterministic transformation) and is kept because it interacts with corruption.",
+    "C12": "Seeded exploration across 2-4 instances with re-sealed single-field edits, misdirected and damaged fragments; per-fragment and stripe verdicts compared with a reference validity predicate.",
+    "C13": "Fault enumeration of the finite malformed-call grid inside live histories plus a seeded walk of the configuration box; refusal value, nothing retained, no sanitizer report, accepted instances complete a full cycle.",
+    "C14": "Seeded exploration of create/use/destroy histories (random, not the bounded-exhaustive depth-7 enumeration the property text also mentions - that would be model checking) against a registry set model, dead-descriptor uses on every entry point, counter wrap, canaries.",
+    "C15": "Seeded exploration with every input on read-only guarded pages and fresh-process canary digests at random points of mixed histories.",
+    "C16": "Seeded exploration of long fault-laden histories; exact ownership accounting of library allocations (zero at quiescence) with ASan for double free / use after free.",
+    "C17": "Fault enumeration: each backend operation fails at each call position of a scripted workload (swept by run index) in two modes, plus random placements and dependency failures; rc<0, nothing retained, the repeated call succeeds.",
+    "C18": "Seeded exploration of interleavings: real threads released one at a time at lock, hook and API yield points by a seeded scheduler (random walk, PCT, bounded preemption); results compared with sequential truth, vector-clock race detector over annotated shared state. Sampling of schedules, not exhaustive enumeration.",
+    "C19": "Seeded exploration of the ISA-L adapters over all k+m<=32 through a clean-room libisal with varied stub behaviour and injected inversion failures; relative to that stub.",
+    "C20": "Seeded exploration of forced-check decodes with damaged subsets of the survivors; safety and availability oracles evaluated only when every delivered fragment is pristine or invalid under the reference.",
 }
